@@ -67,6 +67,7 @@ FaultsFor(t, elemCount) ==
     [] t.k = "bool" -> {Flt("conversion", PS("x")), Flt("type", PN("7")), Flt("type", Obj)} \cup RefFaults
     [] t.k = "string" -> {Flt("type", Obj)} \cup RefFaults
     [] t.k = "dur" -> {Flt("conversion", PS("x")), Flt("type", PB(TRUE)), Flt("type", Obj)} \cup RefFaults
+    [] t.k = "re"  -> {Flt("conversion", PS("a(b")), Flt("type", Obj)} \cup RefFaults
     [] t.k = "ustr" -> {Flt("custom", PS("bad")), Flt("type", Obj)} \cup RefFaults
     [] t.k = "uany" -> {Flt("custom", PS("bad")), Flt("custom", Obj)} \cup RefFaults
     [] t.k = "struct" -> {Flt("type", PS("x")), Flt("type", PN("1"))}
